@@ -53,7 +53,7 @@ def gen_tree(rng: Any, *, max_depth: int = 4, max_fanout: int = 4, max_nodes: in
     def make(path: str, alias: str, depth: int) -> None:
         shape = rng.choice(["none", "prepare", "start", "both", "both", "start"])
         node = {"path": path, "alias": alias, "has_prepare": shape in ("prepare", "both"), "has_start": shape in ("start", "both"),
-                "prepare": [], "start": [], "children": [], "via_config": rng.random() < 0.4, "methods_in_base": rng.random() < 0.3,
+                "prepare": [], "start": [], "children": [], "via_config": rng.random() < 0.4, "methods_in_base": rng.random() < 0.3, "methods_attached_late": rng.random() < 0.2,
                 "naming": rng.choice(["class", "class", "class", "ref", "entrypoint"]),
                 # start() written as an async generator under @context_teardown (the usual pattern in asphalt components)
                 "start_ctx_teardown": rng.random() < 0.3}
@@ -72,6 +72,10 @@ def gen_tree(rng: Any, *, max_depth: int = 4, max_fanout: int = 4, max_nodes: in
                 make(cpath, calias, depth + 1)
 
     make("", "", 0)
+    for n in nodes.values():
+        if not n["has_prepare"] and not n["has_start"] and n["children"] and rng.random() < 0.5:
+            for c in n["children"]:
+                nodes[c]["via_config"] = True  # a pure grouping component configured entirely from outside
     # ---- draw a linear extension of the structural order while assigning steps
     resources: dict[int, dict[str, Any]] = {}
     free_pairs = [(t, n) for t in range(N_TYPES) for n in NAMES]
@@ -108,7 +112,7 @@ def gen_tree(rng: Any, *, max_depth: int = 4, max_fanout: int = 4, max_nodes: in
         if r < p_wait + 0.08 + (0.3 if wait_heavy else 0.2) and free_pairs:
             t, n = free_pairs.pop()
             rid = fresh()
-            kind = rng.choice(["static", "static", "factory", "multi"])
+            kind = rng.choice(["static", "static", "factory", "afactory", "multi"])
             given = n
             # default-name remapping: only in start() of a component whose alias has a /name suffix
             if phase == "start" and "/" in nodes[path]["alias"] and default_name_of(path) == n and rng.random() < 0.8:
@@ -342,6 +346,12 @@ class Run:
                 # prepare()/start() inherited from an intermediate base class / mixin instead of defined in the class body
                 base = type("Base_" + cname, (Component,), methods)
                 return type(cname, (base,), ns)
+            if node.get("methods_attached_late") and methods:
+                # prepare()/start() attached after the class statement (class decorator / assignment / monkeypatch)
+                cls = type(cname, (Component,), ns)
+                for mname, m in methods.items():
+                    setattr(cls, mname, m)
+                return cls
             ns.update(methods)
             return type(cname, (Component,), ns)
 
@@ -462,6 +472,14 @@ class Run:
                     return Value(rid, run.factory_calls[rid])
 
                 add_resource_factory(factory, r["given_name"], types=[T])
+            elif r["kind"] == "afactory":
+                async def afactory(rid: str = rid) -> Any:
+                    run.factory_calls[rid] = run.factory_calls.get(rid, 0) + 1
+                    n = run.factory_calls[rid]
+                    await checkpoint()
+                    return Value(rid, n)
+
+                add_resource_factory(afactory, r["given_name"], types=[T])
             else:
                 v = Value(rid)
                 self.values[rid] = v
@@ -479,7 +497,7 @@ class Run:
                 await checkpoint()
             self.log("wait-begin", path, rid=rid)
             got = await get_resource(RTYPES[r["type"]], r["name"])
-            ok = (got is self.values.get(rid)) if r["kind"] != "factory" else (isinstance(got, Value) and got.rid == rid)
+            ok = (got is self.values.get(rid)) if r["kind"] not in ("factory", "afactory") else (isinstance(got, Value) and got.rid == rid)
             self.log("wait-end", path, rid=rid, ok=bool(ok), got=repr(got))
         elif kind == "timed_wait":
             rid = str(st[1])
@@ -488,7 +506,7 @@ class Run:
             self.log("timed-wait-begin", path, rid=rid, limit=st[2])
             with anyio.move_on_after(st[2]) as scope:
                 got = await get_resource(RTYPES[r["type"]], r["name"])
-            ok = scope.cancelled_caught or ((got is self.values.get(rid)) if r["kind"] != "factory" else (isinstance(got, Value) and got.rid == rid))
+            ok = scope.cancelled_caught or ((got is self.values.get(rid)) if r["kind"] not in ("factory", "afactory") else (isinstance(got, Value) and got.rid == rid))
             self.log("timed-wait-end", path, rid=rid, timed_out=bool(scope.cancelled_caught), ok=bool(ok), got=repr(got))
         elif kind == "optional":
             t, n = st[1], st[2]
@@ -698,9 +716,10 @@ def check_success(run: Run, *, exact_schedule: bool = True) -> tuple[list[dict[s
                 bad("wait-wrong-object", f"get_resource in {e['actor']!r} returned {e['got']} instead of the published resource r{e['rid']}")
         elif e["kind"] == "optional":
             inc("optional_lookups")
-            if not e["immediate"]:
-                bad("wait-optional-waited", f"optional lookup in {e['actor']!r} took virtual time or let other tasks run")
             key = next((rid for rid, r in tree["resources"].items() if r["type"] == e["type"] and r["name"] == e["name"]), None)
+            # (an asynchronous factory legitimately takes scheduling rounds to produce the value: that is not waiting for a publication)
+            if not e["immediate"] and not (key is not None and tree["resources"][key]["kind"] == "afactory" and e["got"] != "None"):
+                bad("wait-optional-waited", f"optional lookup in {e['actor']!r} took virtual time or let other tasks run")
             present = key is not None and key in pub_seq and pub_seq[key] < e["seq"]
             if key is not None and tree["resources"][key]["kind"] == "multi":
                 pass
@@ -720,7 +739,7 @@ def check_success(run: Run, *, exact_schedule: bool = True) -> tuple[list[dict[s
             continue
         vis = run.visible_after.get(str(r["type"]), {})
         inc("ownership_checked")
-        if r["kind"] == "factory":
+        if r["kind"] in ("factory", "afactory"):
             continue
         if vis.get(r["name"]) is not run.values.get(rid):
             bad("start-ownership", f"resource r{rid} ({RTYPES[r['type']].__name__}, {r['name']!r}) published by {r['by']!r} is not visible in the caller's "
@@ -900,7 +919,7 @@ def check_fault(run: Run) -> tuple[list[dict[str, Any]], dict[str, int]]:
     pub = {e["rid"] for e in ev if e["kind"] == "published"}
     for rid in pub:
         r = tree["resources"][rid]
-        if r["kind"] == "factory":
+        if r["kind"] in ("factory", "afactory"):
             continue
         vis = run.visible_after.get(str(r["type"]), {})
         inc("ownership_checked")
